@@ -25,6 +25,7 @@ import (
 )
 
 type AtClause struct {
+	Prop string // "" or the only property this clause belongs to (written `requires @Cxx E`)
 	Kind string // requires | ghost | assume
 	Name string
 	Expr *SExpr
@@ -408,11 +409,16 @@ func (cs *ContractSet) loadFile(path, pkgPath string) error {
 				kw, body, _ := strings.Cut(tail, " ")
 				switch kw {
 				case "requires", "assume":
+					only := ""
+					if strings.HasPrefix(body, "@") {
+						only, body, _ = strings.Cut(body[1:], " ")
+						body = strings.TrimSpace(body)
+					}
 					x, err := parse(body)
 					if err != nil {
 						return err
 					}
-					cur.At[text] = append(cur.At[text], AtClause{Kind: kw, Expr: x, Src: body})
+					cur.At[text] = append(cur.At[text], AtClause{Kind: kw, Expr: x, Src: body, Prop: only})
 					if kw == "assume" {
 						cs.Assumes = append(cs.Assumes, fmt.Sprintf("%s: at `%s` assume %s", cur.Key, text, body))
 					}
